@@ -2,6 +2,7 @@ package sock
 
 import (
 	"bufio"
+	"errors"
 	"fmt"
 	"io"
 	"net"
@@ -65,6 +66,12 @@ func (cl *Client) Request(method, url string) (string, error) {
 
 	body, err := io.ReadAll(response.Body)
 	if err != nil {
+		// The deadline can also expire while the body is being read: the
+		// peer is alive but slow, which must not be mistaken for "no peer".
+		var netErr net.Error
+		if errors.As(err, &netErr) && netErr.Timeout() {
+			return "", fmt.Errorf("request timeout: %w", ErrTimeout)
+		}
 		return "", fmt.Errorf("read body failed: %w", err)
 	}
 
